@@ -56,8 +56,21 @@ def projects(tier):
     bodies = S.enumerate_methods(3, 3, {"s", "if", "while", "forin", "break", "continue", "return", "try", "def", "class"})[:120]
     text, _ = S.render_unit(S.RENDERERS[0], bodies)
     out.append(("generated_py", "python", {"gen.py": text + "\nm0000(1, [1])\nm0005(2, [])\n"}))
+    # same-named modules in two packages imported by bare name (resolution must not depend on set order), and
+    # overridden methods called through instances
+    out.append(("ambiguous_imports", "python", {
+        "cli/settings.py": 'TITLE = "cli"\n',
+        "cli/util.py": "def clean(text):\n    return text.rstrip()\n\ndef render(body, title):\n    line = title + ': ' + body\n    print(line)\n    return line\n",
+        "main.py": "from util import clean, render\nimport settings\n\ndef handle(request, mode=1):\n    text = clean(request)\n    page = render(text, settings.TITLE)\n    return page\n\ndef main():\n    out = handle('  hello  ')\n    return out\n\nmain()\n",
+        "web/settings.py": 'TITLE = "web"\n',
+        "web/util.py": "def clean(text):\n    stripped = text.strip()\n    return stripped.lower()\n\ndef render(body, title):\n    page = '<h1>' + title + '</h1>' + body\n    return page\n",
+    }))
+    out.append(("inheritance_override", "python", {
+        "zoo.py": "class Base:\n    def __init__(self, name):\n        self.name = name\n    def speak(self, loud=False, times=1):\n        return self.name\n    def run(self):\n        return self.speak(times=2, loud=True)\n\n"
+                  "class Dog(Base):\n    def speak(self, loud=False, times=1):\n        return self.name + 'woof'\n\nclass Cat(Base):\n    def speak(self, loud=False, times=1):\n        return self.name + 'meow'\n\n"
+                  "def make(kind, name):\n    if kind == 1:\n        return Dog(name)\n    return Cat(name)\n\ndef main():\n    a = make(1, 'a')\n    b = make(2, 'b')\n    print(a.speak(loud=True), b.run(), a.run())\n\nmain()\n"}))
     if tier == "quick":
-        keep = {"py_dataflows", "py_import", "js_dataflows", "java_lang", "mixed_py_js", "generated_py", "php_lang"}
+        keep = {"ambiguous_imports", "inheritance_override", "py_dataflows", "py_import", "js_dataflows", "java_lang", "mixed_py_js", "generated_py", "php_lang"}
         out = [p for p in out if p[0] in keep]
     return out
 
